@@ -16,7 +16,9 @@ func init() { zz.Register("ZZ_C13_dkgRecordCrash", ZZ_C13_dkgRecordCrash) }
 // protocol outcome) and the process dies at any persistence point of the DKG database. After a restart
 // (store reopened on the surviving file) the completed record is ONE WHOLE epoch -- Complete, with a group
 // and the share that belongs to that group -- and the current record agrees with it: either the completion
-// is recorded in both, or in neither.
+// is recorded in both, or in neither. The completion is announced to the beacon process (which then overwrites
+// the group file and the share in the key folder) only once the database records it, so the key folder is
+// never ahead of the database.
 func ZZ_C13_dkgRecordCrash() {
 	w := zzNewWorld(3)
 	now := time.Now()
@@ -38,7 +40,10 @@ func ZZ_C13_dkgRecordCrash() {
 	if err := bolt.SaveCurrent(zzBeacon, cur); err != nil {
 		panic(err)
 	}
-	p := NewDKGProcess(bolt, &zzIdent{w.pairs[0]}, util.NewFanOutChan[SharingOutput](), &zzClient{}, nil,
+	// the beacon process listens here: once a completion is announced it overwrites the group file and the share
+	fan := util.NewFanOutChan[SharingOutput]()
+	listener := fan.Listen()
+	p := NewDKGProcess(bolt, &zzIdent{w.pairs[0]}, fan, &zzClient{}, nil,
 		Config{Timeout: time.Hour, TimeBetweenDKGPhases: 0, KickoffGracePeriod: time.Hour}, zzfake.Logger())
 	ctx := context.Background()
 	config, err := p.setupDKG(ctx, zzBeacon)
@@ -69,6 +74,9 @@ func ZZ_C13_dkgRecordCrash() {
 	if crashed {
 		zz.Tag("crash=" + zz.CrashedAt())
 	}
+	// was the completion announced to the beacon process before the process died? From that moment on the key
+	// folder may hold the new epoch's group file and share.
+	announced := len(fan.Chan()) > 0 || len(listener) > 0
 	// restart: the database file is reopened by a new process
 	_ = bolt.Close()
 	re, err := NewDKGStore(dir)
@@ -84,6 +92,11 @@ func ZZ_C13_dkgRecordCrash() {
 	}
 	zz.Assert("completed_record_is_a_whole_epoch", f2.State == Complete && f2.FinalGroup != nil && f2.KeyShare != nil && f2.FinalGroup.PublicKey != nil &&
 		f2.KeyShare.Public().Equal(f2.FinalGroup.PublicKey))
+	zz.Assert("completion_is_announced_only_once_it_is_recorded", !announced || f2.Epoch == 2)
+	zz.Assert("a_failed_protocol_announces_nothing", !failing || !announced)
+	if returned && !failing {
+		zz.Assert("a_completion_is_announced", announced)
+	}
 	switch f2.Epoch {
 	case 1:
 		zz.Assert("old_epoch_kept_with_its_own_group_and_share", zzSameRecord(zzCloneState(fin), f2))
